@@ -37,8 +37,18 @@ void harness (void)
     pixman_fixed_t lx, mx, rx, y = pixman_int_to_fixed (1) + Y_FRAC_FIRST (NB);	/* a sample row of pixel row 1 */
     int i;
     VP_SYM (lx); VP_SYM (mx); VP_SYM (rx);
+#ifndef FULLRANGE
     VP_ASSUME (lx >= -(4 << 16) && lx <= ((W + 4) << 16) && rx >= -(4 << 16) && rx <= ((W + 4) << 16));	/* edge x within 4 pixels of the image (stated bound) */
+#endif
     mk (&imgA, bufA); mk (&imgB, bufB);
+#ifdef FULLRANGE
+    /* C04 instance: memory safety only (CBMC bounds checks), any 32-bit edge positions */
+    span (&imgB, lx, rx, y);
+    for (i = 0; i < 3 * ROWWORDS; i++)
+	if (i < ROWWORDS || i >= 2 * ROWWORDS) VP_ASSERT (bufB[i] == 0, "rows other than the addressed one untouched");
+    VP_END ();
+    return;
+#endif
     if (lx <= mx && mx <= rx)
     {
 	span (&imgA, lx, mx, y); span (&imgA, mx, rx, y);
